@@ -34,5 +34,17 @@ UNIT = Unit(
                     "  final(self).local_interner@.contains_key(binder_key(*old(self), ptr)) && final(self).local_interner@[binder_key(*old(self), ptr)] == r,\n"
                     "  (r.idx as int) < old(self).local_info@.len() ==> final(self).local_info@ =~= old(self).local_info@ && final(self).local_interner@ == old(self).local_interner@,\n"
                     "  (r.idx as int) >= old(self).local_info@.len() ==> appended(*old(self), *final(self), r, hint@),"),
+        Fn(file=H, name="alloc_def", container="HirTable", ret="r", rewrites=RW,
+           obligation="a new definition gets the next free index; its data and its path are stored at that index",
+           contract="requires defs_wf(*old(self)), old(self).def_data@.len() < u32::MAX,\nensures defs_wf(*final(self)), def_appended(*old(self), *final(self), r, def, Path::of_ident(name@)),"),
+        Fn(file=H, name="alloc_def_with_path", container="HirTable", ret="r", rewrites=RW,
+           obligation="the same with a given path",
+           contract="requires defs_wf(*old(self)), old(self).def_data@.len() < u32::MAX,\nensures defs_wf(*final(self)), def_appended(*old(self), *final(self), r, def, path),"),
+        Fn(file=H, name="def", container="HirTable", ret="r", rewrites=[("assert_eq!(id.pkg, self.package);", "same_package(id.pkg, self.package);", 1)],
+           obligation="the definition stored at the id's index",
+           contract="requires id.pkg == self.package, (id.idx as int) < self.def_data@.len(),\nensures *r == self.def_data@[id.idx as int],"),
+        Fn(file=H, name="def_path", container="HirTable", ret="r", rewrites=[("assert_eq!(id.pkg, self.package);", "same_package(id.pkg, self.package);", 1)],
+           obligation="the path stored at the id's index",
+           contract="requires id.pkg == self.package, (id.idx as int) < self.def_paths@.len(),\nensures *r == self.def_paths@[id.idx as int],"),
     ],
 )
